@@ -39,11 +39,12 @@ void Normalizer::Normalize(SyntaxTree::Node& root) {
 }
 
 void Normalizer::Quantifier(SyntaxTree::Node& quant) {
-  const auto declToken = quant(0).token.id;
-  if (declToken == TokenID::NT_TUPLE_DECL) {
-    TupleDeclaration(quant(0), quant(2));
-  } else if (declToken == TokenID::NT_ENUM_DECL) {
+  if (quant(0).token.id == TokenID::NT_ENUM_DECL) {
     EnumDeclaration(quant);
+  }
+  // Note: the first item of an enumerated declaration can itself be a tuple pattern
+  if (quant(0).token.id == TokenID::NT_TUPLE_DECL) {
+    TupleDeclaration(quant(0), quant(2));
   }
 }
 
